@@ -85,16 +85,16 @@ def coq_term(case, model):
         return None
     m = model.split(" ")
     if op == "u.ser":
-        return ("ser_biguint (strip %s)" % coq_list(a[0]),
+        return ("ser_biguint serde (strip %s)" % coq_list(a[0]),
                 "(%s, %s)" % (m[1][2:], coq_list(m[2])))
     if op == "i.ser":
         x = a[0].split(":")
-        return ("ser_bigint (from_biguint %s (strip %s))" % ({"-": "Minus", "0": "NoSign", "+": "Plus"}[x[1]], coq_list("d:" + x[2])),
+        return ("ser_bigint serde (from_biguint %s (strip %s))" % ({"-": "Minus", "0": "NoSign", "+": "Plus"}[x[1]], coq_list("d:" + x[2])),
                 "((%s), (%s, %s))" % (m[1].split(":")[2], m[2][2:], coq_list(m[3])))
     if op == "u.de":
         rhs = "None" if model == "err" else "Some %s" % coq_list(m[1])
-        return "de_biguint_tokens %s %s" % (coq_hint(a[0]), coq_list(a[1])), rhs
+        return "de_biguint_tokens serde %s %s" % (coq_hint(a[0]), coq_list(a[1])), rhs
     if op == "i.de":
         rhs = "None" if model == "err" else "Some %s" % coq_bigint(m[1])
-        return "de_bigint (%s) %s %s" % (a[0].split(":")[2], coq_hint(a[1]), coq_list(a[2])), rhs
+        return "de_bigint serde (%s) %s %s" % (a[0].split(":")[2], coq_hint(a[1]), coq_list(a[2])), rhs
     return None
